@@ -119,7 +119,9 @@ OuterSyncLoop:
 
 			// Bump our sync, and march forward
 
+			verifGate("sync:before-bump")
 			d.Sync.Synced++
+			verifGate("sync:after-bump")
 			err = d.Pegnet.InsertSynced(tx, d.Sync)
 			if err != nil {
 				d.Sync.Synced--
@@ -132,7 +134,9 @@ OuterSyncLoop:
 				continue OuterSyncLoop
 			}
 
+			verifGate("sync:before-commit")
 			err = tx.Commit()
+			verifGate("sync:after-commit")
 			if err != nil {
 				d.Sync.Synced--
 				hLog.WithError(err).Errorf("unable to commit transaction")
